@@ -334,13 +334,20 @@ namespace Bluge.C07
 inductive Outcome where | ok | err | panic
 deriving Repr, DecidableEq, Inhabited
 
-/-- `NewFuzzySearcher` (search_fuzzy.go): `fuzziness > MaxFuzziness` and `fuzziness < 0` are errors;
-`getLevAutomatons` builds one automaton per distance `fuzziness, fuzziness-1, …, 1`, and
-`findFuzzyCandidateTerms` indexes `automatons[0]` — out of range when `fuzziness = 0`. -/
-def fuzzyOutcome (fuzziness : Int) : Outcome :=
+/-- `NewFuzzySearcher` (search_fuzzy.go) BEFORE the repair 2b928d2: `fuzziness > MaxFuzziness` and
+`fuzziness < 0` are errors; `getLevAutomatons` builds one automaton per distance `fuzziness, fuzziness-1, …, 1`,
+and `findFuzzyCandidateTerms` indexes `automatons[0]` — out of range when `fuzziness = 0`. -/
+def fuzzyOutcomePre (fuzziness : Int) : Outcome :=
   if fuzziness > 2 then .err
   else if fuzziness < 0 then .err
   else match (List.replicate fuzziness.toNat ())[0]? with
     | some _ => .ok
     | none => .panic
+
+/-- `NewFuzzySearcher` as it is now: fuzziness 0 is an exact term search (`NewMultiTermSearcher` over the
+term itself), so every fuzziness in `0..MaxFuzziness` constructs a searcher -/
+def fuzzyOutcome (fuzziness : Int) : Outcome :=
+  if fuzziness > 2 then .err
+  else if fuzziness < 0 then .err
+  else .ok
 end Bluge.C07
